@@ -359,7 +359,7 @@ def chunk_cases(tier, chunk):
 
 def plan(tier):
     if tier == "quick":
-        return {"exhaustive": [(i, 16, 16, 64) for i in range(16)], "streams": {"main": 3000}, "shards": 16,
+        return {"exhaustive": [(i, 16, 16, 64) for i in range(16)], "streams": {"main": 8000}, "shards": 16,
                 "exhaustive_is_complete": False,
                 "exhaustive_note": "64 blocks of 16 states of the 3456-state universe, all ordered pairs within a block (16k pairs)"}
     return {"exhaustive": [(i, 64, 40, 640) for i in range(64)], "streams": {"main": 60000}, "shards": 16,
